@@ -201,7 +201,10 @@ fn main() {
                         }
                         if r == 0 {
                             if first_n > 0 {
-                                let f = (t.wrapping_mul(7) + seed as usize) % first_n.min(n);
+                                // half of the threads start on the same "focus" input of this process (through the four
+                                // profiles), the others are spread over the whole first-use corpus
+                                let fnn = first_n.min(n);
+                                let f = if t % 2 == 0 { ((seed as usize % (fnn / 4).max(1)) * 4 + (t / 2) % 4) % fnn } else { (t.wrapping_mul(7) + seed as usize) % fnn };
                                 if let Some(k) = order.iter().position(|i| *i == f) {
                                     order.swap(0, k);
                                 }
